@@ -91,6 +91,7 @@ class Normaliser:
         self.memo = {}
         self.dens = {}         # denominators met (as z3 terms, by id)
         self.sq = {}           # atom index of a sqrt symbol -> radicand Rat
+        self.rules = None      # (i, j) atom-index pair -> Poly: the product atom_i*atom_j may be replaced by the polynomial
 
     def atom(self, t):
         k = t.get_id()
@@ -141,8 +142,41 @@ class Normaliser:
                 return Rat(Poly.var(i))
         return Rat(Poly.var(self.atom(t)))
 
+    def _load_rules(self):
+        """product rewrite rules registered by dependency contracts (core.PRODUCT_RULES: hypotheses `a*b == rhs` over constants)"""
+        self.rules = {}
+        for (ta, tb, rhs) in core.PRODUCT_RULES:
+            ka, kb = ta.get_id(), tb.get_id()
+            if ka not in self.atoms or kb not in self.atoms: continue       # a rule about symbols that do not occur
+            r = self.norm(rhs)
+            if not r.d.is_one(): continue
+            i, j = self.atoms[ka][0], self.atoms[kb][0]
+            self.rules[(min(i, j), max(i, j))] = r.n
+
+    def apply_rules(self, p):
+        """rewrite every monomial containing a registered product a*b (each to the first power) by its right-hand side; the rules
+        come from hypotheses, so the value of p under the hypotheses is unchanged"""
+        if not core.PRODUCT_RULES: return p
+        for _ in range(64):
+            self._load_rules()
+            if not self.rules: return p
+            out = Poly(); hit = False
+            for m, c in p.d.items():
+                dm = dict(m); done = False
+                for (i, j), rhs in self.rules.items():
+                    if dm.get(i, 0) >= 1 and dm.get(j, 0) >= 1 and i != j:
+                        rest = dict(dm); rest[i] -= 1; rest[j] -= 1
+                        rest = tuple(sorted((k, e) for k, e in rest.items() if e > 0))
+                        out = out + Poly({rest: c}) * rhs
+                        done = True; hit = True; break
+                if not done: out = out + Poly({m: c})
+            p = out
+            if not hit: return p
+        raise TooBig()
+
     def reduce(self, p):
         """reduce powers of sqrt symbols in polynomial p modulo r^2 = tn/td (result is p times a nonzero factor)"""
+        p = self.apply_rules(p)
         changed = True
         guard = 0
         while changed:
@@ -171,7 +205,7 @@ class Normaliser:
                     g = {m: c for m, c in g.items() if c != 0}
                     out = out + Poly(g) * pw_n[h] * pw_d[K - h]
                 p = out
-        return p
+        return self.apply_rules(p)
 
 
 def prove_eq(goal, sub=None):
